@@ -206,3 +206,55 @@ func VerifC13_OwnServer(nc, ns int) {
 		verifAssert("adopted is the highest common version", c13IsMaxCommon(*c.version, cl, sv))
 	}
 }
+
+// VerifC13_OwnServerTwice: two clients negotiate one after the other against
+// the same server instance: the first exchange must not change what the server
+// supports (the result for the second client depends on the sets only).
+func VerifC13_OwnServerTwice(nc1, nc2, ns, configure int) {
+	cl1 := c13ClientSet(nc1, true)
+	cl2 := c13ClientSet(nc2, true)
+	var sv []kmip.ProtocolVersion
+	exec := kmipserver.NewBatchExecutor()
+	if configure == 1 {
+		for i := 0; i < ns; i++ {
+			sv = append(sv, c13Small("s"))
+		}
+		exec.SetSupportedProtocolVersions(append([]kmip.ProtocolVersion(nil), sv...)...)
+	} else {
+		sv = []kmip.ProtocolVersion{kmip.V1_0, kmip.V1_1, kmip.V1_2, kmip.V1_3, kmip.V1_4}
+	}
+	verifKnown("C13-discover-rejected-without-1.1", !c13Contains(sv, kmip.V1_1))
+	reply := func(req *kmip.RequestMessage) *kmip.ResponseMessage {
+		resp := exec.HandleRequest(context.Background(), req)
+		wire := ttlv.MarshalTTLV(resp)
+		var decoded kmip.ResponseMessage
+		if err := ttlv.UnmarshalTTLV(wire, &decoded); err != nil {
+			panic(err)
+		}
+		return &decoded
+	}
+	st1 := &c13Stub{reply: reply}
+	c1 := c13Client(cl1, st1)
+	_ = c1.negotiateVersion(context.Background())
+	st2 := &c13Stub{reply: reply}
+	c2 := c13Client(cl2, st2)
+	err := c2.negotiateVersion(context.Background())
+	verifAssert("second client: error iff no common version", (err != nil) == !c13HasCommon(cl2, sv))
+	if err == nil && c2.version != nil {
+		verifAssert("second client: adopted is the highest common version", c13IsMaxCommon(*c2.version, cl2, sv))
+	}
+	// a second executor using the package default is not affected either
+	other := kmipserver.NewBatchExecutor()
+	st3 := &c13Stub{reply: func(req *kmip.RequestMessage) *kmip.ResponseMessage {
+		resp := other.HandleRequest(context.Background(), req)
+		wire := ttlv.MarshalTTLV(resp)
+		var decoded kmip.ResponseMessage
+		if err := ttlv.UnmarshalTTLV(wire, &decoded); err != nil {
+			panic(err)
+		}
+		return &decoded
+	}}
+	c3 := c13Client([]kmip.ProtocolVersion{kmip.V1_4, kmip.V1_3}, st3)
+	err3 := c3.negotiateVersion(context.Background())
+	verifAssert("default-configured server still offers 1.4", err3 == nil && c3.version != nil && *c3.version == kmip.V1_4)
+}
